@@ -406,7 +406,8 @@ func checkDirective(c *core.Ctx, dir string, args []string) {
 	cs := Case{Kind: "GoDirective", Format: dir, Lines: args}
 	c.Eval(1)
 	c.Trans(1)
-	got, _, pan := render(snippet.GoDirective(dir, args...))
+	// (the call gets its own copy: args stays what the case says whatever the callee does with its slice)
+	got, _, pan := render(snippet.GoDirective(dir, append([]string(nil), args...)...))
 	sameTwice(c, cs, "GoDirective")
 	want := ""
 	if dir != "" {
@@ -423,6 +424,45 @@ func checkDirective(c *core.Ctx, dir string, args []string) {
 	}
 	if pan != nil || got != want {
 		c.Fail("", cs, "GoDirective(%q, %q): got %q (panic=%v) want %q", dir, args, got, pan, want)
+	}
+}
+
+// two directives over ONE caller-owned slice (the second over a tail of it), both built first, rendered in
+// both orders: each must render its own non-empty arguments
+func checkDirectiveShared(c *core.Ctx, dir string, args []string) {
+	wantOf := func(as []string) string {
+		w := "//go:" + dir
+		for _, a := range as {
+			if a != "" {
+				w += " " + a
+			}
+		}
+		return w
+	}
+	for k := 1; k < len(args); k++ {
+		for _, tailFirst := range []bool{false, true} {
+			c.Eval(1)
+			c.Trans(2)
+			xs := append([]string(nil), args...) // the caller's slice
+			pristine := append([]string(nil), args...)
+			d1 := snippet.GoDirective(dir, xs...)
+			d2 := snippet.GoDirective(dir, xs[k:]...)
+			cs := Case{Kind: "GoDirective-shared-slice", Format: dir, Lines: args, Bind: k, Reversed: tailFirst}
+			var g1, g2 string
+			var p1, p2 any
+			if tailFirst {
+				g2, _, p2 = render(d2)
+				g1, _, p1 = render(d1)
+			} else {
+				g1, _, p1 = render(d1)
+				g2, _, p2 = render(d2)
+			}
+			sameTwice(c, cs, "GoDirective over a shared slice")
+			if p1 != nil || p2 != nil || g1 != wantOf(pristine) || g2 != wantOf(pristine[k:]) {
+				c.Fail("", cs, "xs=%q; d1=GoDirective(%q, xs...), d2=GoDirective(%q, xs[%d:]...), rendered tail first=%v: d1=%q (want %q, panic=%v) d2=%q (want %q, panic=%v)", pristine, dir, dir, k, tailFirst, g1, wantOf(pristine), p1, g2, wantOf(pristine[k:]), p2)
+			}
+			c.Nontrivial(fmt.Sprint("Dshared|", dir, args, k, tailFirst))
+		}
 	}
 }
 
@@ -621,7 +661,7 @@ func run(c *core.Ctx) {
 	})
 	for _, d := range dirAlphabet {
 		core.Explore(c, core.ExploreOpts{Bound: -1}, func(ch *core.Chooser, _ bool) {
-			ks := buildSeq(ch, len(dirArgAlphabet), 3)
+			ks := buildSeq(ch, len(dirArgAlphabet), 4)
 			if !c.Next() {
 				return
 			}
@@ -630,6 +670,9 @@ func run(c *core.Ctx) {
 				args[i] = dirArgAlphabet[k]
 			}
 			checkDirective(c, d, args)
+			if d != "" && len(args) >= 2 {
+				checkDirectiveShared(c, d, args)
+			}
 		})
 	}
 	core.Explore(c, core.ExploreOpts{Bound: -1}, func(ch *core.Chooser, _ bool) {
@@ -648,6 +691,8 @@ func replay(c *core.Ctx, raw json.RawMessage) {
 		return
 	}
 	switch cs.Kind {
+	case "GoDirective-shared-slice":
+		checkDirectiveShared(c, cs.Format, cs.Lines)
 	case "T-shared-args":
 		checkTShared(c, cs.Shared, cs.Reversed)
 	case "T":
